@@ -45,8 +45,8 @@ Cells == { [backend |-> b, bounded |-> bt, affine |-> a, dtype |-> d, state |-> 
 ASSUME PrintT(<<"NCASES", Cardinality(Cells)>>)
 ASSUME JsonSerialize(IOEnv.OUT_FILE, [cells |-> SetToSeq(Cells), shift_log_prob |-> ShiftLogProb(5),
                                        shift_sample_log_q |-> ShiftSampleLogQ(5)])
-VARIABLE dummy
-Init == dummy = 0
-Next == UNCHANGED dummy
-Spec == Init /\ [][Next]_dummy
+VARIABLE cur
+Init == cur \in Cells
+Next == UNCHANGED cur
+Spec == Init /\ [][Next]_cur
 =============================================================================
